@@ -93,8 +93,8 @@ def html_to_nodes(
                         )
                     ]
                 content = "\n".join(
-                    f":{k}: {v}"
-                    for k, v in sorted(child.attrs.items())
+                    f":{k}: {child.attrs[k]}"  # (an attribute without a value is empty)
+                    for k in sorted(child.attrs)
                     if k in OPTION_KEYS_IMAGE
                 )
                 nodes_list.extend(
@@ -117,8 +117,8 @@ def html_to_nodes(
                 )
 
                 options = "\n".join(
-                    f":{k}: {v}"
-                    for k, v in sorted(child.attrs.items())
+                    f":{k}: {child.attrs[k]}"
+                    for k in sorted(child.attrs)
                     if k in OPTION_KEYS_ADMONITION
                 ).rstrip()
                 new_children = []
